@@ -49,6 +49,10 @@ prop("C03", "exploration",
      "exhaustive enumeration of a single-fault tamper alphabet (every byte position x 4 alterations, signature substitutions, foreign keys, boundary timestamps, emptiness combinations) x both ingress paths x every position of hand-assembled reconciliation messages, against an independent acceptance predicate",
      "Every candidate of the tamper alphabet is presented to the real replica as a remote insert and inside crafted reconciliation messages; acceptance must equal an independent predicate (own canonical encoder, library signature check, namespace, future bound, emptiness), rejected candidates must leave records, both index paths, heads and content hashes identical and produce no event while the rest of the message is applied.",
      "ed25519 is trusted; single-fault candidates only; messages of 1..3 parts with 1..2 entries per part.")
+prop("C04", "model_checking",
+     "explicit-state breadth-first search over N real replicas (local writes with skewed clocks, arbitrary deliveries of written entries, reconciliation sessions cut after k messages, restarts from disk), canonical state = written set + every replica's dump, with a closing phase over every spanning tree and the complete graph on every distinct state",
+     "For N = 2..3 (quick) and 2..5 (thorough) replicas every history up to the depth bound is executed on real stores; after every event each replica holds only written entries and only moves upward in the merge order; from every distinct state, complete sessions along every spanning tree (and the complete graph) converge within N passes to the merge of all accepted local writes on every replica.",
+     "Gossip abstracted as unreliable broadcast; small op alphabet (ins a, ins ab, ins '', del a) x 3 timestamps; replicas 0 and 2 share an author.")
 prop("C05", "exploration",
      "exhaustive product of all small reachable replica states (incl. stale by-key index rows) x the full query parameter product, each result compared with a list-comprehension oracle over the reference dump",
      "8640 queries (kind x author filter x key filter x direction x include-empty x offset x limit) plus all point lookups on every state reachable from <=3 (quick) / <=4 (thorough) offered entries of a two-author universe with empty, prefix-related and 0xFF-edged keys.",
